@@ -30,6 +30,8 @@ type Env struct {
 	touch    *touchSet // collects SSA values visited while building terms (for staleness checks)
 	inLenPhi map[*ssa.Phi]bool
 	inPhi    map[*ssa.Phi]bool
+	pending  []pendingSummary
+	efUnder  map[string]map[edge][]Fact
 	// for the body of a function literal: the MakeClosure that binds its free variables (Parent = env of the enclosing function)
 	closure *ssa.MakeClosure
 	// when the literal is CALLED (through a variable, a parameter or a field): Parent/Call describe the call site (parameters),
@@ -3280,15 +3282,53 @@ func (e *Env) EdgeFacts() map[edge][]Fact {
 	}
 	// phase 2: validator summaries, computed under what the caller already knows at the call site (so that a callee
 	// guard like `if nonce > 0 && x == nil { return err }` yields x != nil for a caller that has excluded nonce == 0)
+	e.pending = pending
 	for _, ps := range pending {
 		e.ef[ps.nilEdge] = append(e.ef[ps.nilEdge], e.calleeSuccessFacts(ps.call, ps.why)...)
 	}
 	return e.ef
 }
 
+// EdgeFactsUnder: the edge facts with the validator summaries recomputed under extra assumptions of the rule that asks (a
+// guard that a validating phase applies only `if quantity > 1` shows in its summary only to who assumes quantity > 1).
+func (e *Env) EdgeFactsUnder(assume []Fact) map[edge][]Fact {
+	base := e.EdgeFacts()
+	if len(assume) == 0 || len(e.pending) == 0 {
+		return base
+	}
+	var ks []string
+	for _, a := range assume {
+		ks = append(ks, a.Key())
+	}
+	sort.Strings(ks)
+	key := strings.Join(ks, "&")
+	if e.efUnder == nil {
+		e.efUnder = map[string]map[edge][]Fact{}
+	}
+	if r, ok := e.efUnder[key]; ok {
+		return r
+	}
+	out := map[edge][]Fact{}
+	for ed, fs := range base {
+		out[ed] = fs
+	}
+	e.efUnder[key] = out // in progress (recursion sees the plain facts)
+	for _, ps := range e.pending {
+		extra := e.calleeSuccessFactsA(ps.call, ps.why, assume)
+		if len(extra) > 0 {
+			out[ps.nilEdge] = append(append([]Fact{}, out[ps.nilEdge]...), extra...)
+		}
+	}
+	return out
+}
+
 // calleeSuccessFacts: what every success return of the (single, module) callee guarantees, computed under what the
 // caller knows at the call site and expressed in the caller's terms.
 func (e *Env) calleeSuccessFacts(call *ssa.Call, why string) []Fact {
+	return e.calleeSuccessFactsA(call, why, nil)
+}
+
+func (e *Env) calleeSuccessFactsA(call *ssa.Call, why string, extraAssume []Fact) []Fact {
 	callees := e.P.Callees(call)
 	if len(callees) != 1 {
 		return nil
@@ -3297,7 +3337,7 @@ func (e *Env) calleeSuccessFacts(call *ssa.Call, why string) []Fact {
 	if len(callee.Blocks) == 0 || callee.Pkg == nil || !strings.HasPrefix(callee.Pkg.Pkg.Path(), modPath) || e.depth >= maxDepth {
 		return nil
 	}
-	assume := e.factsAt(call.Block(), call, nil)
+	assume := append(append([]Fact{}, extraAssume...), e.factsAt(call.Block(), call, nil)...)
 	// what the callers of this function knew when they called it (facts about parameters and the input only: nothing that
 	// names a value of an intermediate function)
 	for x := e; x.Parent != nil && x.Call != nil; x = x.Parent {
@@ -3786,6 +3826,16 @@ func (sub *Env) rewriteResults(call *ssa.Call, fs []Fact) []Fact {
 		}
 	}
 	internal := "@" + sub.ctx
+	freshResult := false
+	for _, r := range returnsOf(sub.Fn) {
+		if len(r.Results) > 0 && (!lastIsError(sub.Fn) || isSuccessReturn(r)) {
+			if al, ok := retval(r, 0).(*ssa.Alloc); ok && al.Heap {
+				if _, isStruct := al.Type().(*types.Pointer).Elem().Underlying().(*types.Struct); isStruct {
+					freshResult = true
+				}
+			}
+		}
+	}
 	var out []Fact
 	for _, f := range fs {
 		g := f
@@ -3805,7 +3855,11 @@ func (sub *Env) rewriteResults(call *ssa.Call, fs []Fact) []Fact {
 			continue
 		}
 		if strings.Contains(k, internal) && (g.Lin || g.Call == nil) {
-			continue // callee-internal values mean nothing to the caller; literals about a call keep their call and env
+			// callee-internal values mean nothing to the caller — unless the callee hands out an object it built: its fields
+			// carry those values to the caller (a validated request object), and linear facts about them travel along
+			if !(g.Lin && freshResult) {
+				continue // literals about a call keep their call and env
+			}
 		}
 		out = append(out, g)
 	}
